@@ -1536,9 +1536,29 @@ func (ex *Exec) phiPoint(phi *ssa.Phi) string {
 // Values such as the loop counter of index() and the severity distances are small integers carried
 // in float64.  IEEE-754 addition, subtraction and comparison are exact on integers of magnitude
 // below 2^53; such terms are kept as i2f(n) with n a mathematical integer term of statically bounded
-// magnitude (below 2^20), and the operations are performed on n.
+// magnitude (below 2^11), and the operations are performed on n.  That float64 addition, subtraction
+// and comparison agree with the integer operations on this range is discharged by bit-blasting
+// (intFloatLemmas: all pairs of 12-bit signed integers), not assumed.
 
-const intFloatBound = 1 << 20
+const intFloatBound = 1 << 11
+
+// intFloatLemmas: for all 12-bit signed a, b: fl(a) (+,-) fl(b) = fl(a (+,-) b) (13-bit result, so no
+// wrap-around), fl(a) < fl(b) <=> a < b, fl(a) <= fl(b) <=> a <= b, fl(a) == fl(b) <=> a = b.
+func intFloatLemmas(prefix, pkg string) []Lemma {
+	decl := "(declare-const a (_ BitVec 12))\n(declare-const b (_ BitVec 12))\n" +
+		"(define-fun fa () (_ FloatingPoint 11 53) ((_ to_fp 11 53) RNE a))\n" +
+		"(define-fun fb () (_ FloatingPoint 11 53) ((_ to_fp 11 53) RNE b))\n"
+	mk := func(name, goal string) Lemma {
+		return Lemma{Name: prefix + "/lemma/integer_valued_floats_exact/" + name, Pkg: pkg, Bare: true, Timeout: 150,
+			Script: decl + "(assert (not " + goal + "))\n"}
+	}
+	return []Lemma{
+		mk("add", "(= (fp.add RNE fa fb) ((_ to_fp 11 53) RNE (bvadd ((_ sign_extend 1) a) ((_ sign_extend 1) b))))"),
+		mk("sub", "(= (fp.sub RNE fa fb) ((_ to_fp 11 53) RNE (bvsub ((_ sign_extend 1) a) ((_ sign_extend 1) b))))"),
+		mk("order", "(and (= (fp.lt fa fb) (bvslt a b)) (= (fp.leq fa fb) (bvsle a b)) (= (fp.gt fa fb) (bvsgt a b)) (= (fp.geq fa fb) (bvsge a b)))"),
+		mk("equality", "(and (= (fp.eq fa fb) (= a b)) (not (fp.isNaN fa)) (not (fp.isInfinite fa)) (not (fp.isNegative ((_ to_fp 11 53) RNE #x000))))"),
+	}
+}
 
 func intBounds(n *Term) (lo, hi int64, ok bool) {
 	switch n.Op {
